@@ -12,7 +12,7 @@ PROPERTY = "C14"
 LEVEL = "exploration"
 # parts repeated in a child interpreter started with -O and with warnings turned into errors (vlib/runner.py, MODES)
 MODE_PARTS = {"OW": ['vectors', 'every-length', 'ring-hash-function', 'str-subclasses']}
-RULE_THREADS = (" The hash function a RendezvousHash(seed=s) holds (fresh, built with nodes=, copy.copy, copy.deepcopy) equals the reference with seed s. Instances of str subclasses (a plain subclass, one overriding __str__/__repr__/__format__, a str-valued Enum member) hash as their characters. Two threads: each hashes its own string while the other is pre-empted at every bytecode of the hash function (deterministic scheduler, one pre-emption per run; thorough: two) - every call still returns the reference value (the function is a pure function of its arguments, also under concurrency). One RendezvousHash shared by two threads, pre-empted once (some twice) at every bytecode of the ring's code: every lookup gives what the rule gives. Input lengths run to 800 (every length) and a few far beyond: the function has no bound, and a node name, a dash and a 250-byte key make some 300 bytes. One long-lived ring places 18 000 to 40 000 different keys (more than 65 536 scored strings) like the rule. Strings with code points above 255 (non-ASCII keys under allow_unicode_keys) must keep the value every release so far gives them - the reference hash of the code points' low bytes - since placement must not change between releases. Placement under genuine ties: pairs of server names whose scores for a key are equal under the real hash (the second name is computed by inverting the hash's rounds) are placed by RendezvousHash as the published rule says - the greater name wins in either order.")
+RULE_THREADS = (" The hash function a RendezvousHash(seed=s) holds (fresh, built with nodes=, copy.copy, copy.deepcopy) equals the reference with seed s. Instances of str subclasses (a plain subclass, one overriding __str__/__repr__/__format__, a str-valued Enum member) hash as their characters. Two threads: each hashes its own string while the other is pre-empted at every bytecode of the hash function (deterministic scheduler, one pre-emption per run; thorough: two) - every call still returns the reference value (the function is a pure function of its arguments, also under concurrency). One RendezvousHash shared by two threads, pre-empted once (some twice) at every bytecode of the ring's code: every lookup gives what the rule gives. Input lengths run to 800 (every length) and a few far beyond: the function has no bound, and a node name, a dash and a 250-byte key make some 300 bytes. One long-lived ring places 18 000 to 40 000 different keys (more than 65 536 scored strings) like the rule. Strings with code points above 255 (non-ASCII keys under allow_unicode_keys) must keep the value every release so far gives them - the reference hash of the code points' low bytes - since placement must not change between releases. Placement under genuine ties: pairs of server names whose scores for a key are equal under the real hash (the second name is computed by inverting the hash's rounds) are placed by RendezvousHash as the published rule says - the greater name wins in either order. Other packages installed: with a stand-in for a hashing package of a well-known name (mmh3, pymmh3, murmurhash3: MurmurHash3 of bytes, str encoded as UTF-8) importable and the library's modules re-imported, the built-in function and the ring still give the reference values.")
 RULE = ("cases are (string, 32-bit seed); enumerated: published vectors, every string of length 0-3 "
         "(thorough: 0-3 over a larger alphabet, 4-5 over reduced ones) over representative code points "
         "incl. 0x00,0x7f,0x80,0xff x seeds {0,1,2^31,2^32-1}; Hypothesis: every length 0..64 over code "
@@ -258,6 +258,79 @@ def check_tie(case):
     return True, ["genuine-tie", "seed=0" if sd == 0 else "seed!=0"]
 
 
+# ---- other packages installed next to the library ---------------------------------------------------------------------
+
+def _standin_mmh3():
+    """a module that behaves like the `mmh3` package an application may have installed: MurmurHash3 of BYTES; a str argument is
+    encoded as UTF-8 first; results signed unless signed=False"""
+    import types
+    m = types.ModuleType("mmh3")
+
+    def hash(key, seed=0, signed=True):      # noqa: A001
+        b = key.encode("utf-8") if isinstance(key, str) else bytes(key)
+        v = refhash.murmur3(b, seed & 0xFFFFFFFF)
+        return v - (1 << 32) if signed and v >= (1 << 31) else v
+    m.hash = hash
+    m.hash_from_buffer = hash
+    m.mmh3_32_uintdigest = lambda key, seed=0: hash(key, seed, False)
+    m.mmh3_32_sintdigest = lambda key, seed=0: hash(key, seed, True)
+    m.__version__ = "4.1.0"
+    return m
+
+
+def environment_cases(tier, seed):
+    for name in ("mmh3", "pymmh3", "murmurhash3"):
+        for i in range(3 if tier == "quick" else 12):
+            yield (name, seed * 10 + i)
+
+
+def check_environment(case):
+    """what the hash function returns does not depend on which other packages can be imported in the process: with a hashing
+    package of a well-known name installed, murmur3_32 (re-imported) still equals the reference for strings of code points 0..255,
+    and still gives wide strings the value every release so far gives them"""
+    import importlib
+    import sys
+    import pymemcache.client.murmur3 as M
+    import pymemcache.client.rendezvous as R
+    name, sd = case
+    if name in sys.modules:
+        return False, ["environment", "package-really-installed"]
+    x = (sd * 2654435761 + 12345) & 0xFFFFFFFF
+    strings = ["", "a", "caf\xe9", "\xff\xfe\x80", "cl\xe9-1", "node:1-k\xfc", "\u0416\u0416", "ab\u0416"]
+    for i in range(150):
+        x = (x * 1103515245 + 12345) & 0x7FFFFFFF
+        n = x % 19
+        strings.append("".join(chr(((x >> (j % 20)) + 37 * j) % (256 if i % 4 else 1200)) for j in range(n)))
+    sys.modules[name] = _standin_mmh3()
+    try:
+        importlib.reload(M)
+        importlib.reload(R)
+        for s_ in strings:
+            for hseed in (0, 1, 0xFFFFFFFF):
+                want = refhash.murmur3(bytes(ord(ch) & 0xFF for ch in s_), hseed)
+                try:
+                    got = M.murmur3_32(s_, hseed)
+                except Exception as e:  # noqa: BLE001
+                    raise Violation(["environment", "raises"], "with a package named %r importable, murmur3_32(%r, %#x) raises %r" % (name, s_[:30], hseed, e))
+                if got != want:
+                    raise Violation(["environment", "differs"], "with a package named %r importable, murmur3_32(%r, %#x) = %r; without it (and by the reference) %#010x"
+                                    % (name, s_[:30], hseed, got, want))
+        nodes = ["n1:11211", "n2:11211", "caf\xe9:11211"]
+        ring = R.RendezvousHash(nodes)
+        for s_ in strings[:60]:
+            b = refhash.latin1(s_)
+            if b is None:
+                continue
+            want = refhash.place(nodes, s_)
+            if ring.get_node(s_) != want:
+                raise Violation(["environment", "placement"], "with a package named %r importable, key %r is placed on %r, the rule gives %r" % (name, s_[:30], ring.get_node(s_), want))
+    finally:
+        del sys.modules[name]
+        importlib.reload(M)
+        importlib.reload(R)
+    return True, ["environment", "with-" + name]
+
+
 # ---- callers in several threads ---------------------------------------------------------------------------------
 
 PAIRS = [("hello-abc", "xyzzy"), ("abcd", "0123456789abc"), ("", "seven77"), ("\xff\x80\x00\x01tail", "\xe9" * 6), ("k" * 33, "k" * 34), ("node-1:11211-key", "node-2:11211-key")]
@@ -404,6 +477,7 @@ PARTS = [
     Part("one-ring-two-threads", "enum", check_ring_threads, cases=ring_thread_cases, exhaustive=True),
     Part("str-subclasses", "enum", check_subclass, cases=subclass_cases, shards={"quick": 1, "thorough": 1}, exhaustive=True),
     Part("placement-under-genuine-ties", "enum", check_tie, cases=tie_cases, shards={"quick": 2, "thorough": 8}, exhaustive=True),
+    Part("other-packages-installed", "enum", check_environment, cases=environment_cases, shards={"quick": 1, "thorough": 2}, exhaustive=True),
     Part("ring-hash-function", "enum", check_ring_hash, cases=ring_hash_cases, shards={"quick": 1, "thorough": 1}, exhaustive=True),
     Part("two-threads", "enum", check_threads, cases=thread_cases, exhaustive=True),
     Part("vectors", "enum", check_vector, cases=vector_cases, shards={"quick": 1, "thorough": 1}, exhaustive=True),
